@@ -1233,9 +1233,19 @@ impl Session {
                 let session_id = session.id();
                 let mut ticker = time::interval(heartbeat_state.interval);
                 ticker.set_missed_tick_behavior(MissedTickBehavior::Delay);
+                // Send time of the request that is waiting for its response. The peer is
+                // dead when that request stays unanswered for `timeout`, measured from the
+                // moment it was sent (not from the previous response, which is always about
+                // one interval old when the next tick fires). One request is outstanding at
+                // a time.
+                let mut awaiting_since: Option<Instant> = None;
 
                 loop {
-                    ticker.tick().await;
+                    let deadline = awaiting_since.map(|sent| sent + heartbeat_state.timeout);
+                    let is_tick = tokio::select! {
+                        _ = ticker.tick() => true,
+                        _ = time::sleep_until(deadline.unwrap_or_else(Instant::now)), if deadline.is_some() => false,
+                    };
 
                     if session.is_closed() {
                         tracing::debug!(
@@ -1245,44 +1255,74 @@ impl Session {
                         break;
                     }
 
-                    let last_seen = {
-                        let guard = heartbeat_state.last_received.lock().await;
-                        Instant::now().saturating_duration_since(*guard)
-                    };
-
-                    if last_seen > heartbeat_state.timeout {
-                        tracing::warn!(
-                            session_id = session_id,
-                            elapsed_ms = last_seen.as_millis() as u64,
-                            "[Session] Heartbeat timeout detected; closing session"
-                        );
-                        if let Err(e) = session.close().await {
-                            tracing::error!(
-                                session_id = session_id,
-                                "[Session] Failed to close session after heartbeat timeout: {}",
-                                e
-                            );
+                    if let Some(sent) = awaiting_since {
+                        let last_received = { *heartbeat_state.last_received.lock().await };
+                        if last_received >= sent {
+                            awaiting_since = None;
+                        } else {
+                            let waited = Instant::now().saturating_duration_since(sent);
+                            if waited >= heartbeat_state.timeout {
+                                tracing::warn!(
+                                    session_id = session_id,
+                                    elapsed_ms = waited.as_millis() as u64,
+                                    "[Session] Heartbeat timeout detected; closing session"
+                                );
+                                if let Err(e) = session.close().await {
+                                    tracing::error!(
+                                        session_id = session_id,
+                                        "[Session] Failed to close session after heartbeat timeout: {}",
+                                        e
+                                    );
+                                }
+                                break;
+                            }
                         }
-                        break;
                     }
 
-                    if let Err(e) = session
-                        .write_control_frame(Frame::control(Command::HeartRequest, 0))
-                        .await
-                    {
-                        tracing::error!(
-                            session_id = session_id,
-                            "[Session] Failed to send HeartRequest: {}",
-                            e
-                        );
-                        if let Err(close_err) = session.close().await {
+                    if !is_tick || awaiting_since.is_some() {
+                        continue;
+                    }
+
+                    // The request itself must not wait longer than the timeout either: a
+                    // peer that stopped draining the connection blocks every writer.
+                    let send_result = time::timeout(
+                        heartbeat_state.timeout,
+                        session.write_control_frame(Frame::control(Command::HeartRequest, 0)),
+                    )
+                    .await;
+                    match send_result {
+                        Ok(Ok(())) => {
+                            awaiting_since = Some(Instant::now());
+                        }
+                        Ok(Err(e)) => {
+                            tracing::error!(
+                                session_id = session_id,
+                                "[Session] Failed to send HeartRequest: {}",
+                                e
+                            );
+                            if let Err(close_err) = session.close().await {
+                                tracing::warn!(
+                                    session_id = session_id,
+                                    "[Session] Failed to close session after heartbeat error: {}",
+                                    close_err
+                                );
+                            }
+                            break;
+                        }
+                        Err(_) => {
                             tracing::warn!(
                                 session_id = session_id,
-                                "[Session] Failed to close session after heartbeat error: {}",
-                                close_err
+                                "[Session] HeartRequest could not be written within the heartbeat timeout; closing session"
                             );
+                            if let Err(close_err) = session.close().await {
+                                tracing::warn!(
+                                    session_id = session_id,
+                                    "[Session] Failed to close session after heartbeat timeout: {}",
+                                    close_err
+                                );
+                            }
+                            break;
                         }
-                        break;
                     }
 
                     tracing::trace!(
